@@ -56,6 +56,26 @@ def check(run):
         sc.exchange(S.partial_reversal(receipt, cur, pre - min(pre, final), tok), [S.status_info({0x27: 0, 0x04: 7, 0x0B: 8, 0x0C: 9, 0x0D: 10, 0x29: 11}), S.completion()])
         sc.exp_results.append("Ok:tid=00000011,amount=7,trace=8,date=0010,time=000009")
         scs.append(sc)
+    for r1, r2 in ((17, 18), (0, 9999), (9999, 0), (4711, 4711)):
+        for across in (False, True):
+            pre, final, cur, tok = 2500, 1000, 978, "tok"
+            sc = cc.Scenario(S, {"amount": pre, "cur": cur, "max": 2}).start()
+            sc.ops.append("begin:" + tok.encode().hex())
+            if across:
+                # attempt 1 reports r1, then the connection is closed; the call reconnects, re-sends the reservation, attempt 2 reports r2
+                sc.expect_write(S.reservation(cur, pre, tok)); sc.feed(cc.ACK); sc.feed(S.status_info({0x27: 0, 0x87: r1})); sc.expect_write(cc.ACK)
+                sc.new_conn(end_prev="C"); sc.handshake()
+                sc.exchange(S.reservation(cur, pre, tok), [S.status_info({0x27: 0, 0x87: r2}), S.completion()])
+            else:
+                sc.exchange(S.reservation(cur, pre, tok), [S.status_info({0x27: 0, 0x87: r1}), S.intermediate(), S.status_info({0x27: 0, 0x87: r2}), S.completion()])
+            sc.exp_results.append("Ok")
+            sc.ops.append("begin:" + "other".encode().hex())
+            sc.exchange(S.reservation(cur, pre, "other"), [S.status_info({0x27: 0, 0x87: 77}), S.completion()])
+            sc.exp_results.append("Ok")
+            sc.ops.append("commit:%s:%d" % (tok.encode().hex(), final))
+            sc.exchange(S.partial_reversal(r2, cur, pre - final, tok), [S.status_info({0x27: 0, 0x04: 7, 0x0B: 8, 0x0C: 9, 0x0D: 10, 0x29: 11}), S.completion()])
+            sc.exp_results.append("Ok:tid=00000011,amount=7,trace=8,date=0010,time=000009")
+            scs.append(sc)
     cases, mo, io = run_scenarios(run, scs, "c08")
     diffs = judge(run, scs, cases, mo, io,
                   "commit asks to release exactly pre - min(pre, final) in the configured currency against the token's receipt number and reference (BMP60 'AC' + token); "
